@@ -5,7 +5,7 @@ cd "$(dirname "$0")/.." || exit 2
 R="${PYOAK_REPO:?set PYOAK_REPO to a scratch worktree of /repo}"
 [ -z "$(git -C $R status --short)" ] || { echo "$R not clean"; exit 2; }
 (cd lean && lake build >/dev/null 2>&1)
-checks=$(python3 -c "import json;print(' '.join(x['property_id'] for x in json.load(open('MANIFEST.json'))['checks']))")
+checks=${CHECKS:-$(python3 -c "import json;print(' '.join(x['property_id'] for x in json.load(open('MANIFEST.json'))['checks']))")}
 for id in ${*:-$(ls harmless)}; do
   git -C $R apply $PWD/harmless/$id/patch.diff 2>/dev/null || { echo "$id: patch does not apply"; continue; }
   bad=""
